@@ -11,13 +11,13 @@ CONSTANTS
   RG = 2
   QOrphan = TRUE
   QUnknownDsn = TRUE
-  QSplit = TRUE
+  QSplit = FALSE
   QDefaultSync = TRUE
   QHeaderIgnored = TRUE
   WT = 1
   MaxNow = 0
   WdKinds <- WdKindsOne
-  QWdFirst = TRUE
+  QWdFirst = FALSE
 INVARIANTS TypeOK QueuedOnceInItsPool PendingIffQueued NamedNodeObeyed SelectionInRange PreferInserting OneLoopPerWorker RunImpliesInit
 PROPERTIES PromiseOnce RoutedOnce ExitedForGood
 CHECK_DEADLOCK FALSE
